@@ -120,7 +120,7 @@ Proof.
   intros strict schema conf Hs. unfold parse_flat.
   set (st0 := {| ps_allowed := []; ps_regs := []; ps_err := false; ps_oof := false; ps_values := [] |}).
   destruct (fold_get_keyval strict conf schema st0 Hs) as [H1 _]. cbv zeta in H1. rewrite H1. cbn [ps_oof st0].
-  destruct (check_keywords _ _ _); [destruct (ps_err _)| |]; discriminate.
+  destruct (check_keywords _ _ _); [destruct (ps_err _)|]; discriminate.
 Qed.
 
 Lemma parse_config_total : forall strict schema raw, schema_ok schema ->
@@ -130,13 +130,21 @@ Proof.
   destruct (check_braces (strip_comments raw) O); [apply parse_flat_total; exact Hs|discriminate].
 Qed.
 
-(* unmatched braces (by count) are always refused *)
+(* the model parser always returns accept or reject *)
+Lemma parse_config_accept_or_reject : forall strict schema raw, schema_ok schema ->
+  (exists vs, parse_config strict schema raw = PAccept vs) \/ parse_config strict schema raw = PReject.
+Proof.
+  intros strict schema raw Hs. pose proof (parse_config_total strict schema raw Hs) as H.
+  destruct (parse_config strict schema raw) as [vs| |]; [left; exists vs; reflexivity|right; reflexivity|congruence].
+Qed.
+
+(* braces that are not properly nested (after comments are removed) are always refused *)
 Lemma parse_config_unbalanced_rejected : forall strict schema raw,
-  ~ balanced (strip_comments raw) -> parse_config strict schema raw = PReject.
+  ~ well_nested (strip_comments raw) -> parse_config strict schema raw = PReject.
 Proof.
   intros strict schema raw H. unfold parse_config.
   destruct (check_braces (strip_comments raw) O) eqn:C; [|reflexivity].
-  apply check_braces_iff_balanced in C. contradiction.
+  apply check_braces_iff_nested in C. contradiction.
 Qed.
 
 (* ------------------------------------------------------------------ unknown keywords *)
@@ -161,20 +169,14 @@ Qed.
 
 Lemma check_keywords_ok_spec : forall allowed conf rs,
   check_keywords allowed conf rs = CK_ok <->
-  exists s, strip_values conf rs = Some s /\ existsb (fun r => match r with RegAnomaly => true | _ => false end) rs = false /\
-            forall l, In l (split_lines s) -> blank_line l \/ starts_with_keyword allowed l.
+  forall l, In l (split_lines (strip_values conf rs)) -> blank_line l \/ starts_with_keyword allowed l.
 Proof.
-  intros allowed conf rs. unfold check_keywords.
-  destruct (existsb _ rs) eqn:A.
-  - split; [discriminate|]. intros [s [_ [H _]]]. discriminate.
-  - destruct (strip_values conf rs) as [s|].
-    + unfold check_lines. destruct (forallb (line_ok allowed) (split_lines s)) eqn:F.
-      * split; [|reflexivity]. intros _. exists s. repeat split.
-        intros l Hl. apply line_ok_spec. rewrite forallb_forall in F. apply F. exact Hl.
-      * split; [discriminate|]. intros [s' [E [_ H]]]. inversion E. subst s'.
-        assert (forallb (line_ok allowed) (split_lines s) = true); [|congruence].
-        apply forallb_forall. intros l Hl. apply line_ok_spec. apply H. exact Hl.
-    + split; [discriminate|]. intros [s [E _]]. discriminate.
+  intros allowed conf rs. unfold check_keywords, check_lines.
+  destruct (forallb (line_ok allowed) (split_lines (strip_values conf rs))) eqn:F.
+  - split; [|reflexivity]. intros _ l Hl. apply line_ok_spec. rewrite forallb_forall in F. apply F. exact Hl.
+  - split; [discriminate|]. intros H.
+    assert (forallb (line_ok allowed) (split_lines (strip_values conf rs)) = true); [|congruence].
+    apply forallb_forall. intros l Hl. apply line_ok_spec. apply H. exact Hl.
 Qed.
 
 Definition schema_keywords (schema : list (list Z * kind)) : list (list Z) :=
@@ -190,19 +192,13 @@ Definition registry_of (strict : bool) (schema : list (list Z * kind)) (conf : l
    anything else (a misspelt keyword, a keyword of another context) makes the parser refuse the configuration *)
 Lemma unknown_keyword_rejected : forall strict schema conf vs, schema_ok schema ->
   parse_flat strict schema conf = PAccept vs ->
-  exists s, strip_values conf (registry_of strict schema conf) = Some s /\
-            forall l, In l (split_lines s) -> blank_line l \/ starts_with_keyword (schema_keywords schema) l.
+  forall l, In l (split_lines (strip_values conf (registry_of strict schema conf))) ->
+            blank_line l \/ starts_with_keyword (schema_keywords schema) l.
 Proof.
   intros strict schema conf vs Hs H. unfold parse_flat in H.
   set (st0 := {| ps_allowed := []; ps_regs := []; ps_err := false; ps_oof := false; ps_values := [] |}) in *.
   destruct (fold_get_keyval strict conf schema st0 Hs) as [H1 H2]. cbv zeta in H1, H2.
   destruct (ps_oof (fold_left (get_keyval strict conf) schema st0)); [discriminate|].
-  destruct (check_keywords _ _ _) eqn:C; [|discriminate|discriminate].
-  apply check_keywords_ok_spec in C. destruct C as [s [E [_ Hl]]].
-  exists s. split; [exact E|]. rewrite H2 in Hl. cbn [ps_allowed st0 app] in Hl. exact Hl.
+  destruct (check_keywords _ _ _) eqn:C; [|discriminate].
+  rewrite check_keywords_ok_spec in C. rewrite H2 in C. cbn [ps_allowed st0 app] in C. exact C.
 Qed.
-
-(* a configuration in which no keyword of the schema can be found keeps all its lines: any non-blank line
-   makes it refused *)
-Lemma strip_values_nil : forall conf, strip_values conf [] = Some conf.
-Proof. reflexivity. Qed.
